@@ -35,6 +35,12 @@
    EPS = 1e-6 cut-off for a single contribution and for reporting a node.  They are written here as
    constants, never imported.
 
+   Relaxation budget: "hard cap on the number of relaxations" is read as: a relaxation is performed
+   only while fewer than relax_cap have been performed, and propagation ends as soon as the count
+   reaches the cap (for relax_cap >= 1 this is "stop right after the relaxation that reaches the
+   cap"; for relax_cap = 0 no relaxation is ever performed, everything up to the first edge that
+   would be relaxed still happens).  RelaxBudget (props <= relax_cap) is an invariant of this machine.
+
    Numbers: activation values are integers in units of 1/D.  D = 2^22 ("dyadic" worlds: all factors
    are +-2^-k or 3, so the implementation's doubles are exact) or D = 2^12 5^3 (documented default
    multipliers 3/5, 4/5 and attn_quad 1/5, 1/10; F5 = 125).  A world in which a division leaves the
